@@ -227,7 +227,7 @@ func heimdallEpisode(t *testing.T, r *kit.Run, rng *rand.Rand, maxN, steps int) 
 		}
 		height := before.H + int64(1+rng.Intn(4))
 		vs := cur
-		op := []string{"honest", "honest", "short-absent", "short-nil", "short-forged", "short-copies", "short-copies", "foreign-valset", "not-higher"}[rng.Intn(9)]
+		op := []string{"honest", "honest", "short-absent", "short-nil", "short-forged", "short-copies", "short-copies", "foreign-valset", "not-higher", "multi-descending", "multi-ascending"}[rng.Intn(11)]
 		switch op {
 		case "honest":
 			fillRest(above, "absent")
@@ -252,9 +252,32 @@ func heimdallEpisode(t *testing.T, r *kit.Run, rng *rand.Rand, maxN, steps int) 
 			}
 			fillRest(above, "absent")
 		}
+		var second *hmCase
+		if op == "multi-descending" || op == "multi-ascending" {
+			// two headers in one call: the first switches cur -> next, the second (signed by next)
+			// switches next -> third and sits LOWER (but above the stored height) or higher
+			fillRest(above, "absent")
+			height = before.H + int64(2+rng.Intn(4))
+			third := hmNewSet(rng, 1+rng.Intn(maxN), shapes[rng.Intn(len(shapes))])
+			thirdHash := hmSet(third).Hash()
+			sets[string(thirdHash)] = third
+			h2 := before.H + 1 + rng.Int63n(height-before.H) // before.H < h2 <= height
+			if op == "multi-ascending" {
+				h2 = height + int64(1+rng.Intn(3))
+			}
+			s2 := make([]hmSlot, len(next))
+			for i := range s2 {
+				s2[i] = hmSlot{kind: "valid"}
+			}
+			second = hmBuild(rng, h2, next, thirdHash, s2, op+"-second")
+		}
 		c := hmBuild(rng, height, vs, nextHash, slots, op)
 		var rec *nat.CallRecord
-		rec = chains.SyncHeaders(e, heimdallChain, [][]byte{c.raw})
+		raws := [][]byte{c.raw}
+		if second != nil {
+			raws = append(raws, second.raw)
+		}
+		rec = chains.SyncHeaders(e, heimdallChain, raws)
 		after := hmRead(e)
 		r.Eval(1)
 		kinds := []string{}
@@ -291,8 +314,33 @@ func heimdallEpisode(t *testing.T, r *kit.Run, rng *rand.Rand, maxN, steps int) 
 		if op == "honest" {
 			r.Count("heimdall_honest_advanced", 1)
 		}
-		if c.legit(before) && after.H == c.height && bytes.Equal(after.NVH, c.nvh) {
+		if second == nil && c.legit(before) && after.H == c.height && bytes.Equal(after.NVH, c.nvh) {
 			continue
+		}
+		if second != nil {
+			// in-order chain of justified headers
+			st1 := &tracked{H: c.height, NVH: c.nvh}
+			okFinal := false
+			if c.legit(before) {
+				okFinal = same(after, st1)
+				if second.legit(st1) && same(after, &tracked{H: second.height, NVH: second.nvh}) {
+					okFinal = true
+				}
+			}
+			if second.legit(before) && same(after, &tracked{H: second.height, NVH: second.nvh}) {
+				okFinal = true
+			}
+			if okFinal {
+				r.Count("heimdall_multi_advanced", 1)
+				continue
+			}
+			replay["second_header"] = map[string]interface{}{"height": second.height, "distinct_honest_signer_power": second.validPower, "total_power": second.total, "header_amino_hex": kit.Hex(second.raw)}
+			key := "heimdall:advance-not-justified"
+			if c.legit(before) && after.H < c.height {
+				key = "heimdall:tracked-height-decreased-within-call"
+			}
+			viol(r, key, fmt.Sprintf("syncBlockHeader(%s: heights %d then %d): tracked %v -> %v", op, c.height, second.height, before, after), replay)
+			return
 		}
 		key := "heimdall:advance-not-justified"
 		switch {
